@@ -167,6 +167,49 @@ func runOp(kind string, g int, seed int64, i int) (out string) {
 			J{"c": 4, "tt": 4, "tid": []int{2, 14}[g%2], "attr": "none", "at": 0, "av": 0, "avl": Oct{}}}}
 		o := actProposalRoundtrip(e, J{"kind": "ike", "prop": pj, "wire": true})
 		return digest(J{"err": o["err"], "encr": o["encr"], "integ": o["integ"], "prf": o["prf"], "dh": o["dh"], "back": o["back"]})
+	case "transform_stress":
+		// tight loop of transform -> algorithm lookups; every goroutine asks for a different key length / identifier mix
+		bits := []int{128, 192, 256}[g%3]
+		integID := []int{1, 2, 12}[g%3]
+		prfID := []int{1, 2, 5}[g%3]
+		grp := []int{2, 14}[g%2]
+		bad := 0
+		for k := 0; k < 4000; k++ {
+			tj := J{"c": 1, "tt": 1, "tid": 12, "attr": "tv", "at": 14, "av": bits, "avl": Oct{}}
+			kind := []string{"encr", "encrk"}[k%2]
+			if actTransformToAlg(e, J{"kind": kind, "tr": tj})["alg"] != fmt.Sprintf("aes-cbc-%d", bits) {
+				bad++
+			}
+			if k%4 == 0 {
+				for _, q := range []struct {
+					kind string
+					tt   int
+					id   int
+					want string
+				}{{"integ", 3, integID, []string{"md5", "sha1", "sha256"}[g%3]}, {"integk", 3, integID, []string{"md5", "sha1", "sha256"}[g%3]},
+					{"prf", 2, prfID, []string{"md5", "sha1", "sha256"}[g%3]}, {"dh", 4, grp, fmt.Sprintf("modp-%d", grp)}} {
+					tq := J{"c": q.tt, "tt": q.tt, "tid": q.id, "attr": "none", "at": 0, "av": 0, "avl": Oct{}}
+					if actTransformToAlg(e, J{"kind": q.kind, "tr": tq})["alg"] != q.want {
+						bad++
+					}
+				}
+			}
+		}
+		return digest(J{"wrong": bad})
+	case "codec_stress":
+		bad := 0
+		for k := 0; k < 300; k++ {
+			m := gn.message()
+			o := actEncode(e, J{"msg": m})
+			if w, ok := o["wire"]; ok {
+				o2 := actDecode(e, J{"wire": w, "caps": false})
+				m2, err := buildMsg(m)
+				if o2["err"] == true || err != nil || !eqJ(o2["msg"], projMsg(m2)) {
+					bad++
+				}
+			}
+		}
+		return digest(J{"wrong": bad})
 	case "strings":
 		s := message.IkePayloadType(33+g%16).String() + message.IkePayloadType(200).String() + eap.EapType(50).String() + eap.EapType(uint8(g)).String() +
 			eap.AT_RES.String() + eap.EapAkaPrimeAttrType(uint8(g)).String()
